@@ -59,12 +59,14 @@ class _StubZip:
         return self._infos
 
 
-def _infos(entries, attrs=()):
+def _infos(entries, attrs=(), same_name=()):
     """attrs[i]: external_attr given to entry i. A *file* name with directory attribute bits (MS-DOS 0x10, Unix S_IFDIR) is still a file to
     zipfile (it decides by the trailing slash alone), so it is decompressed like any other member and must be judged like one."""
     out = []
     for i, (f, c, d) in enumerate(entries):
-        zi = zipfile.ZipInfo(f"d{i}/" if d else f"f{i}.bin")
+        # same_name[i] = j: entry i carries the name of entry j (a ZIP may list one name several times; every listed entry is counted and can be read)
+        j = same_name[i] if i < len(same_name) and same_name[i] is not None and same_name[i] < len(entries) and bool(entries[same_name[i]][2]) == bool(d) else i
+        zi = zipfile.ZipInfo(f"d{j}/" if d else f"f{j}.bin")
         zi.file_size, zi.compress_size = f, c
         if i < len(attrs) and attrs[i]:
             zi.external_attr = attrs[i]
@@ -72,12 +74,12 @@ def _infos(entries, attrs=()):
     return out
 
 
-def judge_vector(entries, lim, attrs=()):
+def judge_vector(entries, lim, attrs=(), same_name=()):
     from sharepoint2text.parsing.exceptions import ExtractionZipBombError
     from sharepoint2text.parsing.extractors.util.zip_bomb import ZipBombLimits, validate_zipfile
     want, why = reference(entries, lim)
     try:
-        validate_zipfile(_StubZip(_infos(entries, attrs)), limits=ZipBombLimits(**lim), source="vf")
+        validate_zipfile(_StubZip(_infos(entries, attrs, same_name)), limits=ZipBombLimits(**lim), source="vf")
         got = False
     except ExtractionZipBombError:
         got = True
@@ -171,7 +173,8 @@ def _vector_strategy():
             f = max(0, min(f, 10**14))
             entries.append((f, c, d))
         attrs = [draw(st.sampled_from([0, 0, 0, 0x10, 0x41ED0010, 0x81A40000, 0x20])) for _ in entries]
-        return {"entries": entries, "limits": lim, "attrs": attrs}
+        same = [draw(st.sampled_from([None, None, None, 0, 1])) for _ in entries]
+        return {"entries": entries, "limits": lim, "attrs": attrs, "same_name": same}
     return vec()
 
 
@@ -189,7 +192,7 @@ def random_shard(ctx: Ctx):
 
     def ev(m):
         entries = [tuple(e) for e in m["entries"]]
-        fails, want = judge_vector(entries, m["limits"], m.get("attrs") or ())
+        fails, want = judge_vector(entries, m["limits"], m.get("attrs") or (), m.get("same_name") or ())
         part.case(digest(m), _on_threshold(entries, m["limits"]), sample=m, dir_attr_on_file=any(a & 0x10 and not e[2] for a, e in zip(m.get("attrs") or (), entries)), verdict={True: "reject", False: "accept", None: "unspecified"}[want],
                   has_dir=any(e[2] for e in entries), n=len(entries))
         return _viol(fails, {"kind": "zipvector", **m})
@@ -388,5 +391,5 @@ def replay(ctx: Ctx, payload: dict):
         raw, entries = build_forged(base, [tuple(d) for d in payload["dummies"]], payload.get("pad", 0))
         fails, _, _ = judge_package(payload["ext"], raw, entries)
     else:
-        fails, _ = judge_vector([tuple(e) for e in payload["entries"]], payload["limits"], payload.get("attrs") or ())
+        fails, _ = judge_vector([tuple(e) for e in payload["entries"]], payload["limits"], payload.get("attrs") or (), payload.get("same_name") or ())
     return _viol(fails, payload)
